@@ -751,6 +751,36 @@ fn section_depth(cx: &mut Cx) {
     let mut o = vec![0xd4, 0x01, 0x02]; cx.cmp_mp_accepts(&o, "ext"); o.truncate(2); cx.cmp_mp_accepts(&o, "ext truncated");
 }
 
+/// call arguments as deep as the interpreter can hold them: serde_json accepts service results with up to 127 nested containers
+/// (recursion limit 128); whatever the interpreter can hold must survive the trip to the host and back (both readers)
+fn section_deep_arguments(cx: &mut Cx) {
+    for depth in [1usize, 64, 100, 120, 125, 126, 127] {
+        for kind in 0..3 {
+            let mut text = String::new();
+            for k in 0..depth { match (kind, k % 2) { (0, _) | (2, 0) => text.push('['), _ => text.push_str("{\"a\":") } }
+            text.push_str("\"x\"");
+            for k in (0..depth).rev() { match (kind, k % 2) { (0, _) | (2, 0) => text.push(']'), _ => text.push('}') } }
+            let Ok(v) = serde_json::from_str::<Value>(&text) else { cx.rep.stat("deep_value_refused_by_serde_json"); continue };
+            let args = vec![v.clone(), json!("flat")];
+            let a = ser_args(&args);
+            cx.rep.case(&format!("deep-args|{depth}|{kind}"), true, || json!({"deep_arguments": depth, "kind": (["arrays", "objects", "mixed"][kind])}));
+            cx.rep.stat("deep_argument_roundtrips");
+            let host: Result<Result<Vec<Value>, _>, String> = catch(|| CallArgumentsRepr.deserialize(&a));
+            let own: Result<Result<Vec<JValue>, _>, String> = catch(|| CallArgumentsRepr.deserialize(&a));
+            let want: Vec<JValue> = args.iter().map(JValue::from).collect();
+            let host_ok = matches!(&host, Ok(Ok(back)) if *back == args);
+            let own_ok = matches!(&own, Ok(Ok(back)) if *back == want);
+            if !host_ok || !own_ok {
+                ofail(cx.rep, json!({"why": format!("call arguments holding a value of nesting depth {depth} (which the interpreter accepts from a service) do not round-trip: host reader {}, interpreter reader {}",
+                    match &host { Ok(Ok(_)) => "decodes to another value".to_string(), Ok(Err(e)) => format!("refuses: {e}"), Err(p) => format!("panics: {p}") },
+                    match &own { Ok(Ok(_)) => if own_ok { "ok".to_string() } else { "decodes to another value".to_string() }, Ok(Err(e)) => format!("refuses: {e}"), Err(p) => format!("panics: {p}") }),
+                    "input": {"depth": depth, "kind": kind, "hex": hex(&a)}}));
+                return;
+            }
+        }
+    }
+}
+
 fn section_histories(cx: &mut Cx, rng: &mut Rng, histories: usize, model_blobs: usize) {
     let mut seen: HashMap<u64, ()> = HashMap::new();
     let mut modelled = 0usize;
@@ -847,6 +877,7 @@ pub fn run(ctx: &mut Ctx, rep: &mut Report) {
     section_varint(&mut cx, &mut rng, if thorough { 6000 } else { 150 });
     lap("varint");
     section_depth(&mut cx);
+    section_deep_arguments(&mut cx);
     lap("depth");
     section_requests(&mut cx, &mut rng, if thorough { 900 } else { 36 }, if thorough { 24 } else { 8 }, &tags);
     lap("requests");
